@@ -204,7 +204,14 @@ class AbsMachine:
                 return chosen[id(e)]
             if isinstance(e.func, ast.Name) and e.func.id == "isinstance" and len(e.args) == 2:
                 v = self.ev(e.args[0], env, chosen)
-                tys = e.args[1].elts if isinstance(e.args[1], ast.Tuple) else [e.args[1]]
+                def _flat(t: ast.AST) -> list[ast.AST]:
+                    if isinstance(t, ast.Tuple):
+                        return [y for x in t.elts for y in _flat(x)]
+                    if isinstance(t, ast.BinOp) and isinstance(t.op, ast.BitOr):  # PEP 604 union
+                        return _flat(t.left) + _flat(t.right)
+                    return [t]
+
+                tys = _flat(e.args[1])
                 if isinstance(v, Obj) and self.isinstance_fn is not None:
                     res = [self.isinstance_fn(v.cls, ast.unparse(t)) for t in tys]
                     if any(r is True for r in res):
@@ -415,6 +422,20 @@ class AbsMachine:
             if getattr(a, "name", None):
                 e2[a.name] = Sym("exc:" + e2["#handling"])  # type: ignore[attr-defined]
             return [("next", e2)]
+        if node.kind == "for" and a is not None:
+            it = self.ev(a.iter, dict(env), {})  # type: ignore[attr-defined]
+            if isinstance(it, tuple):
+                key = f"#for{node.id}"
+                i = env.get(key, 0)
+                if i < len(it):
+                    e2 = dict(env)
+                    e2[key] = i + 1
+                    self._bind(a.target, it[i], e2)  # type: ignore[attr-defined]
+                    return [("iter", e2)]
+                e3 = dict(env)
+                e3.pop(key, None)
+                return [("done", e3)]
+            return None
         if a is None or node.kind in ("join", "entry", "exit", "raise", "for", "with_exit"):
             return None
         what: ast.AST = a
